@@ -256,16 +256,24 @@ pub struct ExCharIndices<'a>(std::str::CharIndices<'a>);
 pub uninterp spec fn ci_len(it: std::str::CharIndices) -> int;     // byte length of the underlying string
 pub uninterp spec fn ci_pos(it: std::str::CharIndices) -> int;     // byte position of the next char (== len when exhausted)
 pub uninterp spec fn ci_cb(it: std::str::CharIndices, i: int) -> bool;   // is_char_boundary of the underlying string
+pub uninterp spec fn ci_bytes(it: std::str::CharIndices) -> Seq<u8>;     // the UTF-8 bytes of the underlying string
 #[verifier::external_body]
 fn shim_char_indices<'a>(s: &'a str) -> (r: std::str::CharIndices<'a>)
     ensures ci_len(r) == sb(s).len(), ci_pos(r) == 0, sb(s).len() <= usize::MAX, forall|i: int| #[trigger] ci_cb(r, i) == is_cb(s, i),
+        ci_bytes(r) == sb(s),
 { s.char_indices() }
 // CharIndices::next: yields (byte index of the char, char); indices are strictly increasing and < len
 #[verifier::external_body]
 fn shim_ci_next<'a>(it: &mut std::str::CharIndices<'a>) -> (r: Option<(usize, char)>)
     ensures
-        ci_len(*final(it)) == ci_len(*old(it)),
+        ci_len(*final(it)) == ci_len(*old(it)), ci_bytes(*final(it)) == ci_bytes(*old(it)),
         forall|i: int| #[trigger] ci_cb(*final(it), i) == ci_cb(*old(it), i),
+        // UTF-8: an ASCII char is its byte; every byte of a non-ASCII char is >= 0x80
+        match r {
+            Some((i, c)) => if is_ascii_char(c) { ci_bytes(*old(it))[i as int] == c as u8 }
+                            else { forall|j: int| i <= j < ci_pos(*final(it)) ==> #[trigger] ci_bytes(*old(it))[j] >= 128u8 },
+            None => true,
+        },
         match r {
             // the char starts at a boundary, the next one too; an ASCII char is one byte long
             Some((i, c)) => i == ci_pos(*old(it)) && i < ci_len(*old(it)) && i < ci_pos(*final(it)) <= ci_len(*old(it))
